@@ -33,6 +33,9 @@ def check(rep, tier):
                 "driven with the same tapes; logs must be identical" % len(optcorpus.GENS),
         "samples": [{"generator": cases[i]["g"], "tape": cases[i]["tape"], "events": R["out"][i]["events"][:30]} for i in (0, len(cases) - 1)],
     })
+    os_ = R.get("opt_struct", {})
+    rep.coverage["optimiser_model_vs_real_output"] = {k: v for k, v in os_.items() if k != "mismatches"}
+    rep.coverage["optimiser_model_mismatches"] = len(os_.get("mismatches", []))
     bad = []
     for i in opt_vs_unopt:
         name = cases[i]["prog"]
@@ -49,6 +52,15 @@ def check(rep, tier):
             "program_abstract": by[name]["body"] if name in by else None,
             "optimised_events": R["out"][i]["events"], "unoptimised_events": R["tmp"][i]["events"],
             "source_events": R["ref"][i]["events"], "other_differences": len(bad) - 1}))
+    if not bad and os_.get("mismatches"):
+        name, code = os_["mismatches"][0]
+        rep.violation(rep.write_replay("optimiser_model", {
+            "what": "correspondence broken: the real optimiser's output differs from optimise(...) of coq/Opt.v (code %d) on program %s; "
+                    "optimised and unoptimised stages behave alike on all driven tapes" % (code, name),
+            "correspondence": "lib/optstruct.py: abstract tree of <dst> vs Opt.optimise (Rewrite.rewrite ...), theorem C07_optimiser_preserves_partial no longer speaks about this code",
+            "program": pgen.render_func(name, by[name]["body"], "co") if name in by else name,
+            "program_abstract": by[name]["body"] if name in by else None,
+            "other_mismatches": len(os_["mismatches"]) - 1}), "no-failing-input-found")
     # import clean-up: every optimised file must build; a file whose unoptimised stage builds (after dropping the
     # go-co import) but whose optimised stage does not is an import/eta problem of the optimiser
     if R.get("bystander_build_error"):
